@@ -96,6 +96,15 @@ type fn struct {
 	Name string
 }
 
+// HostName is the name under which tables of allowed functions know f: its own, or – for an unexported
+// function outside the baseline that only one baseline function uses (a piece split off it) – that function's.
+func (f *fn) HostName() string {
+	if h := core.HostOf(f.Obj); h != nil {
+		return core.FuncName(h)
+	}
+	return f.Name
+}
+
 func getFn(c *core.Ctx, rel, name string) *fn {
 	obj := c.P.Func(rel, name)
 	if obj == nil {
@@ -294,6 +303,104 @@ func seeThrough(f *fn, e ast.Expr) ast.Expr {
 		e = def
 	}
 	return ast.Unparen(e)
+}
+
+// seeThroughAt is seeThrough for a use at the statement `at`, and additionally follows a local defined
+// once from operands that do change (loop counters: `last := cm.table[row][column]` inside the scan)
+// when the definition and the use belong to the same innermost loop (and function literal) and no
+// operand is assigned between the two in statement order – the name then still stands for that
+// expression at the use.
+func seeThroughAt(f *fn, e ast.Expr, at ast.Node) ast.Expr {
+	e = seeThrough(f, e)
+	id, ok := e.(*ast.Ident)
+	if !ok {
+		return e
+	}
+	v, ok := f.Info.Uses[id].(*types.Var)
+	if !ok || v.IsField() || (v.Pkg() != nil && v.Parent() == v.Pkg().Scope()) {
+		return e
+	}
+	def := singleDef(f, v)
+	if def == nil {
+		return e
+	}
+	operands := map[*types.Var]bool{}
+	ast.Inspect(def, func(n ast.Node) bool {
+		if x, ok := n.(*ast.Ident); ok {
+			if o, ok := f.Info.Uses[x].(*types.Var); ok && !o.IsField() && (o.Pkg() == nil || o.Parent() != o.Pkg().Scope()) && assignCount(f, o) > 1 {
+				operands[o] = true
+			}
+		}
+		return true
+	})
+	ord, defOrd, atOrd := 0, -1, -1
+	var defLoop, atLoop ast.Node
+	var mods []int
+	var stack []ast.Node
+	isOperand := func(x ast.Expr) bool {
+		xid, ok := ast.Unparen(x).(*ast.Ident)
+		if !ok {
+			return false
+		}
+		o, _ := f.Info.Uses[xid].(*types.Var)
+		if o == nil {
+			o, _ = f.Info.Defs[xid].(*types.Var)
+		}
+		return o != nil && operands[o]
+	}
+	loopOf := func() ast.Node {
+		for i := len(stack) - 1; i >= 0; i-- {
+			switch stack[i].(type) {
+			case *ast.ForStmt, *ast.RangeStmt, *ast.FuncLit:
+				return stack[i]
+			}
+		}
+		return nil
+	}
+	ast.Inspect(f.Decl.Body, func(n ast.Node) bool {
+		if n == nil {
+			stack = stack[:len(stack)-1]
+			return true
+		}
+		ord++
+		if n == ast.Node(def) {
+			defOrd, defLoop = ord, loopOf()
+		}
+		if n == at {
+			atOrd, atLoop = ord, loopOf()
+		}
+		switch y := n.(type) {
+		case *ast.AssignStmt:
+			for _, l := range y.Lhs {
+				if isOperand(l) {
+					mods = append(mods, ord)
+				}
+			}
+		case *ast.IncDecStmt:
+			if isOperand(y.X) {
+				mods = append(mods, ord)
+			}
+		case *ast.UnaryExpr:
+			if y.Op == token.AND && isOperand(y.X) {
+				mods = append(mods, 0, 1<<30) // address taken: give up
+			}
+		case *ast.RangeStmt:
+			if (y.Key != nil && isOperand(y.Key)) || (y.Value != nil && isOperand(y.Value)) {
+				mods = append(mods, ord)
+			}
+		}
+		stack = append(stack, n)
+		return true
+	})
+	if defOrd < 0 || atOrd < 0 || defOrd >= atOrd || defLoop != atLoop {
+		return e
+	}
+	for _, m := range mods {
+		if m == 1<<30 || (m > defOrd && m < atOrd) {
+			return e
+		}
+	}
+	return ast.Unparen(def)
 }
 
 // assignCount counts definitions/assignments/inc-dec/address-taking of a local variable in f
